@@ -84,7 +84,9 @@ theorem honest_pick {s : Stream} (h : Honest s) (off len : Nat) : Honest (s.step
       simp only [Sender.pick]
       split
       · split
-        · intro x; cases x
+        · split
+          · rename_i h; intro _; exact h
+          · intro x; cases x
         · exact id
       · intro x; cases x
   · exact h
